@@ -118,6 +118,8 @@ ACCEPT_DIRECT = 1e-6
 ACCEPT_TRANSFORMED = 1e-4
 IVP_METHODS = ["DOP853", "RK45", "Radau"]
 IVP_TOL = 1e-10
+SMALL, SMALL_RTOL, SMALL_ATOL = 1e-6, 1e-4, 1e-13    # data of size 1e-6 solved to 1e-4 RELATIVE: needs atol << 1e-6 * 1e-4
+ACCEPT_SMALL = 2e-2                                    # measured <= 2e-4 x max|y^(k)| (calibration below); atol ignored: >= 0.2
 BVP_TOL = 1e-8
 BVP_MESH = 21
 BVP_MAX_NODES = 50000
@@ -216,15 +218,23 @@ def solve_one(job, catalogue, trees):
                     # then directly): both must answer for the stated data
                     y0 = np.array(y0, dtype=float)
                     shared = y0
-                if int(p["id"]) % 2 == 0 and cden <= 4096:
+                if int(p["id"]) % 2 == 0 and cden <= 4096 and not job.get("small"):
                     y0 = [int(v * cden) for v in raw]
                     if int(p["id"]) % 4 == 0:
                         y0 = np.array(y0, dtype=int)
                     f0 = fx
                     fx = (lambda x, f0=f0, cden=cden: cden * f0(x))
                     exact = exact * cden
+                rtol, atol = IVP_TOL, IVP_TOL
+                if job.get("small"):
+                    y0 = [float(v) * SMALL for v in raw]
+                    f1 = fx
+                    fx = (lambda x, f1=f1: SMALL * f1(x))
+                    exact = exact * SMALL
+                    shared = None
+                    rtol, atol = SMALL_RTOL, SMALL_ATOL
                 sol = solve_ode_ivp(span, fx, coeffs, y0, transform=tf, method=job["method"],
-                                    no_derivatives=False, rtol=IVP_TOL, atol=IVP_TOL)
+                                    no_derivatives=False, rtol=rtol, atol=atol)
                 if shared is not None and tf is not None:
                     sol_direct = solve_ode_ivp(span, fx, coeffs, shared, transform=None, method=job["method"],
                                                no_derivatives=False, rtol=IVP_TOL, atol=IVP_TOL)
@@ -316,6 +326,14 @@ def make_jobs(probs, tier, rng):
                     j.update(pattern=s)
                     j["key"] = (p["id"], "bvp:" + ",".join(f"{a}{b}" for a, b, _ in p["bvp"][s]), tf)
                 jobs.append(j)
+        # "within the solver tolerance" has two parts: one IVP per problem is posed for 1e-6 x the data (the equation is
+        # linear) with rtol = 1e-4 and atol = 1e-13 - the absolute tolerance has to be honoured for the answer to be right
+        # relative to the solution's own size
+        s0 = p["id"] % 3
+        if IVP_METHODS[s0] != "Radau":
+            j = {"prob": p, "type": "ivp", "tf": None, "method": IVP_METHODS[s0], "dir": p["ivpdir"][s0], "small": True}
+            j["key"] = (p["id"], f"ivp:{IVP_METHODS[s0]}:{p['ivpdir'][s0]}:small-data", None)
+            jobs.append(j)
         # HyperbolicRTransform is outside the specification's catalogue (its methods refuse arrays of N points unless
         # b (N - 1) < 1, so a BVP mesh decides whether it is admissible); the initial-value solver evaluates it point
         # by point, so there it is a coordinate transformation like the others: one extra solve per half-line problem
@@ -325,6 +343,52 @@ def make_jobs(probs, tier, rng):
             j["key"] = (p["id"], f"ivp:{IVP_METHODS[s]}:{p['ivpdir'][s]}", HYP)
             jobs.append(j)
     return jobs
+
+
+def tolerance_clause(rep):
+    """'Within the solver tolerance' for data far below 1: the manufactured problems of Ode.tla have polynomial
+    solutions, which Runge-Kutta methods of order >= 4 integrate exactly whatever the step - so the tolerances never
+    bite there.  Here: y'' + y = 0 (y = c sin x), y' + y = 0 (y = c exp(-x)) and y'' - 4 y = 0 (y = c cosh 2x) with
+    c = 1e-6, solved with rtol = 1e-4 and atol = 1e-13, directly and through BeckeRTransform: the answer must be right
+    to ~rtol RELATIVE TO c, which needs the caller's atol to reach the integrator (closed forms; harness-level clause)."""
+    from grid.ode import solve_ode_ivp
+    from grid.rtransform import BeckeRTransform
+    c = SMALL
+    probs = [("y''+y=0", [1, 0, 1], [0.0, c], lambda x: c * np.sin(x), lambda x: c * np.cos(x)),
+             ("y'+y=0", [1, 1], [c], lambda x: c * np.exp(-x), None),
+             ("y''-4y=0", [-4, 0, 1], [c, 0.0], lambda x: c * np.cosh(2 * x), lambda x: 2 * c * np.sinh(2 * x))]
+    pts = np.linspace(0.05, 0.7, 9)
+    worst = 0.0
+    for name, coeffs, y0, y, dy in probs:
+        for method in ("RK45", "DOP853", "Radau"):
+            for tfn in (None, "Becke"):
+                tf = None if tfn is None else BeckeRTransform(0.0, 1.0)
+                # through the transformation the interval is x in [-1, 1): solve the same equation in r on [0, 0.75] <-> use
+                # the inverse picture: y as a function of x = original variable on [0, 0.75] for the direct solve, and
+                # for the transformed solve the original variable is x in (-1, 1) with r = tf(x); keep it simple: only the
+                # direct interval is used for both (a transformation defined on [-1, 1] contains [0, 0.75])
+                key = f"ivp:tolerance:{name}:{method}:{tfn or 'direct'}"
+                rep.evaluated(1, key)
+                try:
+                    with warnings.catch_warnings():
+                        warnings.simplefilter("ignore")
+                        sol = solve_ode_ivp((0.0, 0.75), lambda x: 0.0 * np.asarray(x, dtype=float), coeffs, list(y0), transform=tf,
+                                            method=method, no_derivatives=False, rtol=SMALL_RTOL, atol=SMALL_ATOL)
+                        got = np.asarray(sol(pts), dtype=float)
+                except Exception as e:  # noqa: BLE001
+                    rep.violation(key + ":raises", f"solve_ode_ivp raised {type(e).__name__}: {e}", {"problem": name, "method": method})
+                    continue
+                got = got[None, :] if got.ndim == 1 else got
+                err = float(np.max(np.abs(got[0] - y(pts)))) / c
+                if dy is not None and got.shape[0] > 1:
+                    err = max(err, float(np.max(np.abs(got[1] - dy(pts)))) / (2 * c))
+                worst = max(worst, err)
+                if not err <= ACCEPT_SMALL:
+                    rep.violation(key, f"solve_ode_ivp({name}, data of size {c:g}, rtol={SMALL_RTOL:g}, atol={SMALL_ATOL:g}, method={method}, "
+                                       f"{'through BeckeRTransform(0, 1)' if tf else 'direct'}) is off by {err:.3g} x the size of the solution "
+                                       f"(accepted {ACCEPT_SMALL:g}): the absolute tolerance did not reach the integrator",
+                                  {"problem": name, "method": method, "transform": tfn, "rel_err": err})
+    rep.set("tolerance_clause_worst_rel_err", worst)
 
 
 def helper_cases(rep, jets):
@@ -448,8 +512,9 @@ def run(tier: str, _select=None) -> int:
         rk = [j for j in jobs if j["type"] == "ivp" and j["method"] == "RK45"]
         radau = [j for j in jobs if j["type"] == "ivp" and j["method"] == "Radau"]
         hyp = [j for j in jobs if j["tf"] == HYP and j["method"] != "Radau"]
+        hyp += [j for j in jobs if j.get("small")][:24]
         jobs = fast[:240] + rk[:45] + radau[:15]
-        jobs += [j for j in hyp if j not in jobs][:16]
+        jobs += [j for j in hyp if j not in jobs][:40]
     else:
         xjobs = c15x.select_thorough(xjobs, random.Random(rep.seed + 15))
         # RK45 / Radau at 1e-10 are slow (0.3 / 2 s per solve): thorough runs every DOP853 and BVP
@@ -460,6 +525,7 @@ def run(tier: str, _select=None) -> int:
             if rng.random() < frac:
                 keep.append(j)
         jobs = keep
+    tolerance_clause(rep)
     import multiprocessing as mp
     _G["catalogue"], _G["trees"] = catalogue, trees
     results, xresults = {}, {}
@@ -489,12 +555,14 @@ def run(tier: str, _select=None) -> int:
             rep.sample(case)
         vkey = f"{key[1].split(':')[0]}:order={p['ord']}:{key[1]}:{tname}:problem={p['id']}"
         accept = ACCEPT_DIRECT if tfe is None else ACCEPT_TRANSFORMED
+        if j.get("small"):
+            accept = ACCEPT_SMALL
         if out["msg"] is not None:
             rep.violation(vkey + ":raises:" + out["msg"].split(":")[0], f"solve_ode_{j['type']} failed on manufactured problem {p['id']} "
                                             f"(order {p['ord']}, {key[1]}, transform {tname}): {out['msg']}", case)
             continue
         w = max(out["err"])
-        g = calib.setdefault(f"{j['type']}:{'direct' if tfe is None else 'transformed'}:order{p['ord']}", [0.0, 0])
+        g = calib.setdefault(f"{j['type']}:{'small-data' if j.get('small') else 'direct' if tfe is None else 'transformed'}:order{p['ord']}", [0.0, 0])
         g[0] = max(g[0], w)
         g[1] += 1
         g2 = calib.setdefault(f"class:{cls}", [0.0, 0])
